@@ -68,21 +68,23 @@ type ExternDecl struct {
 	Kind     string // pure | noeffect | havoc
 	Ensures  []Clause
 	Requires []Clause
+	Modifies []Expr
 	Params   []string // optional names for args (a0,a1.. by default)
 	File     string
 	Line     int
 }
 
 type ContractSet struct {
-	Funcs   map[string]*FuncContract // key pkgpath + "::" + name
-	Externs map[string]*ExternDecl
-	Macros  map[string]*Macro   // package-level macros: key pkgpath::name and also global "::name"
-	SpecFns map[string]*GhostFn // package-level uninterpreted spec functions: key pkgpath::name
-	Files   []string
+	Funcs       map[string]*FuncContract // key pkgpath + "::" + name
+	Externs     map[string]*ExternDecl
+	Macros      map[string]*Macro   // package-level macros: key pkgpath::name and also global "::name"
+	SpecFns     map[string]*GhostFn // package-level uninterpreted spec functions: key pkgpath::name
+	GhostFields map[string]string   // typeKey + "::" + name -> type ("string", "int", "bool")
+	Files       []string
 }
 
 func NewContractSet() *ContractSet {
-	return &ContractSet{Funcs: map[string]*FuncContract{}, Externs: map[string]*ExternDecl{}, Macros: map[string]*Macro{}, SpecFns: map[string]*GhostFn{}}
+	return &ContractSet{Funcs: map[string]*FuncContract{}, Externs: map[string]*ExternDecl{}, Macros: map[string]*Macro{}, SpecFns: map[string]*GhostFn{}, GhostFields: map[string]string{}}
 }
 
 var reMacroHead = regexp.MustCompile(`^([A-Za-z_][A-Za-z0-9_]*)\s*\(([^)]*)\)\s*=\s*(.*)$`)
@@ -201,6 +203,12 @@ func (cs *ContractSet) LoadContractFile(path, pkgPath string) error {
 			}
 			mc := &Macro{Name: m[1], Params: ps, Body: e, Src: rest}
 			cs.Macros[pkgPath+"::"+m[1]] = mc
+		case "ghostfield": // ghostfield <type key> <name> <type>
+			f := strings.Fields(rest)
+			if len(f) != 3 {
+				return fmt.Errorf("%s:%d: ghostfield <type> <name> <type>", path, ln)
+			}
+			cs.GhostFields[f[0]+"::"+f[1]] = f[2]
 		case "specfn":
 			m := reGhostFn.FindStringSubmatch(rest)
 			if m == nil {
@@ -261,6 +269,16 @@ func (cs *ContractSet) LoadContractFile(path, pkgPath string) error {
 				curLoop.Decreases = &cc
 			}
 		case "modifies":
+			if curExt != nil {
+				for _, part := range splitTopLevel(rest, ',') {
+					e, err := parseExpr(part)
+					if err != nil {
+						return fmt.Errorf("%s:%d: %v", path, ln, err)
+					}
+					curExt.Modifies = append(curExt.Modifies, e)
+				}
+				return nil
+			}
 			if cur == nil {
 				return fmt.Errorf("%s:%d: modifies outside func", path, ln)
 			}
